@@ -112,6 +112,7 @@ type RaftNode struct {
 
 	balloon     *balloon.Balloon // Balloon's finite state machine
 	state       *fsmState
+	applyMu     sync.RWMutex // held (write) from computing an insertion until it is persisted; queries hold it (read)
 	snapshotsCh chan *protocol.Snapshot // channel to publish snapshots
 
 	hasherF     func() hashing.Hasher
